@@ -124,6 +124,9 @@ class CDaemon(SV.Daemon):
         run["hooks"][idx] = run["hooks"].get(idx, 0) + 1
         run["conn_objs"][idx] = conn
         run["hook_stamps"].append((idx, run["sched"].stamp()))
+        if idx in run["hook_slow"]:
+            # the application's hook takes its time (it tells another service that the client left)
+            run["sched"].sleep(run["hook_slow"][idx])
         if idx in run["hook_raises"]:
             raise RuntimeError("user hook failed")
 
@@ -142,7 +145,7 @@ class ConnWorld(World):
     PROBES = ["release", "cut_header", "cut_annotations", "cut_payload", "rst", "malformed", "timeout_partial", "timeout_idle", "security",
               "hook_raises", "still_open_ok", "resources_closed", "resources_untracked", "session_instance", "multiplex", "thread",
               "concurrent_endings", "handshake_failed_conn", "oneway_then_close", "stream_open_at_end", "ctor_tracked_resource",
-              "oneway_tracked_resource", "oneway_tracked_after_end", "malformed_truncated_zlib"]
+              "oneway_tracked_resource", "oneway_tracked_after_end", "malformed_truncated_zlib", "slow_disconnect_hook"]
     RULE = ("plan = (server type, COMMTIMEOUT, 2-4 connections each with handshake, 0-2 track calls (n resources, k untracked), optional "
             "session-instance call, an ending kind with byte offset, start delay; optional raising user hook / raising resource close); "
             "distinct = distinct interleaving digest; non-trivial = at least one connection ended abnormally while another was open")
@@ -173,6 +176,7 @@ class ConnWorld(World):
                 ow = [{"n": rng.randint(1, 2), "delay": rng.choice([0, 0, 0.02, 0.2])} for _ in range(rng.randint(1, 2))]
             conns.append({"start": rng.choice([0, 0, 0.01, 0.1]), "tracks": tracks, "ow_tracks": ow, "session": rng.random() < 0.4,
                           "zcut": end == "malformed" and rng.random() < 0.3,
+                          "hook_slow": rng.choice([6.0, 8.0, 12.0]) if rng.random() < 0.12 else 0,
                           "streams": rng.choice([0, 0, 1, 2]),
                           "end": end, "frac": round(rng.random(), 3), "hold": rng.choice([0, 0.05, 0.3]),
                           "bad_handshake": rng.random() < 0.1, "hook_raises": rng.random() < 0.15,
@@ -189,7 +193,7 @@ class ConnWorld(World):
         ctx.probe(plan["servertype"])
         run = _Run.cur = {"resources": {}, "untracked": set(), "hooks": {}, "conn_objs": {}, "hook_raises": set(),
                           "sessions": 0, "sched": sched, "close_raises": plan["close_raises"], "hook_stamps": [],
-                          "creating_for": {}, "ctor_tracks": plan.get("ctor_tracks", False), "ctor_tracked": 0,
+                          "creating_for": {}, "ctor_tracks": plan.get("ctor_tracks", False), "ctor_tracked": 0, "hook_slow": {},
                           "ow_tracked": 0}
         gi = SV.Daemon._getInstance
 
@@ -258,6 +262,9 @@ class ConnWorld(World):
                 r["accepted"] = True
                 if spec["hook_raises"]:
                     run["hook_raises"].add(sk.conn)
+                if spec.get("hook_slow"):
+                    run["hook_slow"][sk.conn] = spec["hook_slow"]
+                    ctx.probe("slow_disconnect_hook")
                 for t in spec["tracks"]:
                     m = call(sk, st, "res", "track", (t["n"], t["untrack"], sk.conn))
                     if m["type"] == N.MSG_RESULT and not m["flags"] & N.FLAG_EXC:
@@ -317,7 +324,7 @@ class ConnWorld(World):
                     else:
                         bad[12:16] = (0xffffffff).to_bytes(4, "big")
                     sk.sendall(bytes(bad))
-                    self._drain(sk, 30.0)
+                    r["drain"] = self._drain(sk, 30.0)
                     sk.close()
                 elif end == "timeout_partial":
                     ctx.probe("timeout_partial")
@@ -333,7 +340,7 @@ class ConnWorld(World):
                 elif end == "security":
                     ctx.probe("security")
                     call(sk, st, "res", "sec", ("s",))
-                    self._drain(sk, 30.0)
+                    r["drain"] = self._drain(sk, 30.0)
                     sk.close()
                 elif end == "oneway_then_close":
                     ctx.probe("oneway_then_close")
@@ -368,7 +375,10 @@ class ConnWorld(World):
         closing = [t for t, c in zip(ths, plan["conns"]) if c["end"] != "open"]
         for t in closing:
             t.join(900.0)
-        sched.sleep(plan["commtimeout"] * 2 + 1.0)
+        # (slow disconnect hooks run one after the other on the thread server - it serialises them - and hold the only thread
+        #  of the multiplex server: give them all the time they need before looking)
+        slow_total = sum(c.get("hook_slow") or 0 for c in plan["conns"])
+        sched.sleep(plan["commtimeout"] * 2 + 1.0 + slow_total)
         sched.settle(5.0)
         # snapshot while the 'open' connections are still open
         mid = {"hooks": dict(run["hooks"])}
@@ -382,7 +392,7 @@ class ConnWorld(World):
             stt = sched.sim_thread_of(t)
             if stt.died:
                 raise RuntimeError("peer thread died: %r" % (stt.died,))
-        sched.sleep(plan["commtimeout"] * 2 + 1.0)
+        sched.sleep(plan["commtimeout"] * 2 + 1.0 + slow_total)
         sched.settle(5.0)
         lt = sched.sim_thread_of(loop)
         if lt.state == "done":
@@ -407,6 +417,7 @@ class ConnWorld(World):
     # ------------------------------------------------------------------
     def _judge(self, ctx, plan, net, run, results, daemon, mid):
         abnormal = 0
+        slow_somewhere = any(c.get("hook_slow") for c in plan["conns"])     # (a slow hook holds the single multiplex thread)
         had_open = any(c["end"] == "open" for c in plan["conns"])
         ended = []
         for ci, spec in enumerate(plan["conns"]):
@@ -424,6 +435,11 @@ class ConnWorld(World):
                 ctx.violate("peer-io-error", spec["end"], "connection %d: %s" % (ci, end))
                 continue
             ended.append(conn)
+            if r.get("drain") == "timeout" and not (plan["servertype"] == "multiplex" and slow_somewhere):
+                # after a malformed request or a security error the daemon ends the connection by itself: the peer, which stayed
+                # connected and only listened, must see the end of the stream - not 30 virtual seconds of silence
+                ctx.violate("connection-not-ended-after-error", spec["end"], "connection %d (%s): the peer kept listening for 30 virtual "
+                            "seconds and the daemon never closed the connection" % (ci, spec["end"]))
             if spec["end"] != "release" and spec["end"] != "open":
                 abnormal += 1
             if spec["hook_raises"]:
